@@ -174,4 +174,7 @@ REGEX_EXPRS = [
     ["fn", "match", [rel("a"), ["lit", "ab"]]],
     ["fn", "match", [rel("a"), ["lit", ""]]],
     ["fn", "search", [rel("a"), ["lit", "b$"]]],
+    ["fn", "match", [rel("a"), ["lit", "a[.]"]]],
+    ["fn", "search", [rel("a"), ["lit", "[^.]b"]]],
+    ["fn", "match", [rel("a"), ["lit", "[a.]+"]]],
 ]
